@@ -1838,10 +1838,22 @@ def rule_grisu_weed(col, facts):
                     n += 1
                     conds = path_conditions(f, i)
                     def is_arg(x, k):
-                        return strip_casts(x)[:2] == ("arg", k)
-                    c1 = any(strip_casts(c)[0] == "bin" and strip_casts(c)[1] == "Lt" and is_arg(strip_casts(c)[2], 4) and is_arg(strip_casts(c)[3], 6) and p is True for _d, c, p in conds)
-                    c2 = any(strip_casts(c)[0] == "bin" and strip_casts(c)[1] == "Ge" and p is True and strip_casts(strip_casts(c)[2])[0] == "bin" and strip_casts(strip_casts(c)[2])[1] == "Sub"
-                             and is_arg(strip_casts(strip_casts(c)[2])[2], 3) and is_arg(strip_casts(strip_casts(c)[2])[3], 4) and is_arg(strip_casts(c)[3], 5) for _d, c, p in conds)
+                        # the parameter itself, or a running copy of it (`let mut current = rem;`)
+                        x = strip_casts(x)
+                        if x[:2] == ("arg", k):
+                            return True
+                        return x[0] == "var" and any(not pr and rv[0] == "use" and rv[1][0] in ("cp", "mv") and rv[1][1] == [k, []] for _b, _j, rv, pr in f.defs().get(x[1], []))
+                    def pos(c, p):
+                        # the comparison with polarity folded in: (`a >= b`, false) is `a < b`
+                        c = strip_casts(c)
+                        if c[0] != "bin" or c[1] not in ("Lt", "Ge", "Le", "Gt") or not isinstance(p, bool):
+                            return None
+                        op = c[1] if p else {"Lt": "Ge", "Ge": "Lt", "Le": "Gt", "Gt": "Le"}[c[1]]
+                        return (op, strip_casts(c[2]), strip_casts(c[3]))
+                    ps = [pos(c, p) for _d, c, p in conds]
+                    ps = [x for x in ps if x]
+                    c1 = any(op == "Lt" and is_arg(l, 4) and is_arg(r, 6) for op, l, r in ps)
+                    c2 = any(op == "Ge" and l[0] == "bin" and l[1] == "Sub" and is_arg(l[2], 3) and is_arg(l[3], 4) and is_arg(r, 5) for op, l, r in ps)
                     col.check(R, "round_digit:decrement", c1 and c2,
                               "the last digit is decremented without both `rem < dist` and `delta - rem >= kappa`: the candidate can leave the rounding interval (output no longer round-trips for asymmetric intervals, i.e. powers of two)", f.loc(st[3]))
     col.floor(R, "digit decrements in round_digit", n, 1)
